@@ -131,7 +131,7 @@ def selftest(pid, repo, relevant_keys, known_keys, baseline_keys):
     for (it, _), r in zip(jobs, results):
         iid, status, keys = r[0], r[1], r[2]
         counts = r[3] if len(r) > 3 else None
-        if it["kind"] == "benign-unsupported":
+        if it["kind"].endswith("-unsupported"):
             out.setdefault("unsupported_inconclusive", 0)
             if status == "inconclusive":
                 out["unsupported_inconclusive"] += 1
